@@ -96,3 +96,40 @@ func VerifResetFaceTable() {
 	})
 	FaceTable.nextFaceID.Store(1)
 }
+
+// VerifRecorderLinkService is a link service that hands every frame its
+// transport receives to a callback; it lets the simulator run a real transport's
+// receive loop (over a real loopback or Unix socket) without a forwarder behind it.
+type VerifRecorderLinkService struct {
+	linkServiceBase
+	OnFrame func(frame []byte)
+	done    chan struct{}
+}
+
+// MakeVerifRecorderLinkService binds a recorder to a transport.
+func MakeVerifRecorderLinkService(tr transport, onFrame func([]byte)) *VerifRecorderLinkService {
+	l := new(VerifRecorderLinkService)
+	l.makeLinkServiceBase()
+	l.transport = tr
+	l.OnFrame = onFrame
+	l.done = make(chan struct{})
+	tr.setLinkService(l)
+	return l
+}
+
+func (l *VerifRecorderLinkService) String() string { return "VerifRecorderLinkService" }
+
+// Run starts the transport's receive loop; Done is closed when it returns.
+func (l *VerifRecorderLinkService) Run(initial []byte) {
+	go func() {
+		l.transport.runReceive()
+		close(l.done)
+	}()
+}
+
+// Done is closed when the transport's receive loop has returned.
+func (l *VerifRecorderLinkService) Done() <-chan struct{} { return l.done }
+
+func (l *VerifRecorderLinkService) handleIncomingFrame(frame []byte) {
+	l.OnFrame(append([]byte(nil), frame...))
+}
